@@ -240,7 +240,7 @@ def stackableC : List St :=
   let s3 := St.all.filter (callsInto (s1 ++ s2))
   (pushTargets ++ s1 ++ s2 ++ s3).eraseDups
 
-/-- demands: (target state, certificate it must admit) -/
+/-- demands: (target state, certificate it must accept) -/
 abbrev Demands := List (St × Cert)
 
 def dDone (a : AbsVal) (s : St) : St × Cert :=
